@@ -309,6 +309,13 @@ def run_group(group, repo=None, trace=False):
     if obligations < group.min_obligations:
         res["reason"] = "vacuity guard: %d obligations < recorded minimum %d" % (obligations, group.min_obligations)
         return res
+    undef = [f for f in failed if "undefined function should be unreachable" in f["description"]]
+    if undef:
+        # DFCC turns a call of a function that has neither a body nor a contract in this group into assert(false): the extracted code calls
+        # something the group does not model.  That is an extraction gap (undecided), never a verdict about the property.
+        res["reason"] = "the extracted code calls function(s) that are not under contract in this group: %s" % ", ".join(
+            sorted(set(f["property"].split(".")[0] for f in undef)))
+        return res
     hard = [f for f in failed if not f["supporting"]]
     if not hard and (canaries < group.canaries or canaries_ok < canaries):
         res["cls"] = "undecided"
